@@ -223,7 +223,11 @@ def random_graph_input(rng, depth=0, folds=None, parent_key=None):
         # a key spelled exactly like the class name its own object gets (XML-ish data: {"Item": {"Item": ...}})
         import inflection
         try:
-            obj[inflection.camelize(inflection.singularize(inflection.underscore(parent_key)))] = rng.choice(LEAVES)
+            own = inflection.camelize(inflection.singularize(inflection.underscore(parent_key)))
+            fo = key_facts(own)
+            if fo["fold"] and fo["fold"] not in folds and fo["letter"] and fo["lead"] == "alpha":
+                folds.add(fo["fold"])       # stays inside the documented domain: fold-distinct over the whole input
+                obj[own] = rng.choice(LEAVES)
         except Exception:
             pass
     for k in ks:
